@@ -216,8 +216,8 @@ func c09RunIn(hist []c09Action) vh.HistResult {
 		delivered := w.consumedAndFinal()
 		for _, qn := range []string{"A", "B", "C"} {
 			q := vs[qn]
-			for b := int64(0); b < int64(len(q.Data)); b += 2 {
-				for e := b + 2; e <= int64(len(q.Data)); e += 2 {
+			for b := int64(0); b < int64(len(q.Data)); b += c09Step {
+				for e := b + c09Step; e <= int64(len(q.Data)); e += c09Step {
 					n := w.st.Received([]sts.Binned{part(q, c09Prev, b, e)})
 					if n != 1 {
 						continue
@@ -337,6 +337,27 @@ func TestC09Held(t *testing.T) {
 	runC09(t, "part sequences on a file that is held for its predecessor once complete (E-HIST)", "q/never", -1)
 }
 
+// TestC09Fine: parts on the odd cut points {0,3,4,8} of the 8-byte file, so that the record can
+// have a hole of exactly one byte ([3,4) missing between [0,3) and [4,8)) and ranges that touch or
+// overlap in a single byte; after every step Received is asked for EVERY interval [b,e) of every
+// version (byte granularity, 36 intervals per 8-byte version).
+func TestC09Fine(t *testing.T) {
+	c09Step = 1
+	c09Alpha = nil
+	for _, iv := range [][2]int64{{0, 3}, {3, 4}, {4, 8}, {0, 4}, {3, 8}, {0, 8}, {1, 2}} {
+		c09Alpha = append(c09Alpha, c09Action{"recv", "A", iv[0], iv[1]})
+	}
+	c09Alpha = append(c09Alpha, c09Action{"recv", "B", 0, 3}, c09Action{"recv", "B", 4, 8}, c09Action{"short", "A", 3, 4})
+	defer func() { c09Step, c09Alpha = 2, nil }()
+	runC09(t, "parts with one-byte holes and one-byte overlaps, Received asked at byte granularity (E-HIST)", "", 0)
+}
+
+// c09Step is the granularity of the Received questions; c09Alpha, when set, replaces the alphabet.
+var (
+	c09Step  int64 = 2
+	c09Alpha []c09Action
+)
+
 func runC09(t *testing.T, partName, prev string, depthAdj int) {
 	stT = t
 	c09Prev = prev
@@ -373,6 +394,10 @@ func runC09(t *testing.T, partName, prev string, depthAdj int) {
 		alpha = append(alpha, c09Action{"short", "A", iv[0], iv[1]})
 	}
 	alpha = append(alpha, c09Action{"bad", "A", 0, 4}) // completes to a file that fails validation and is sent again
+	fine := c09Alpha != nil
+	if fine {
+		alpha = c09Alpha
+	}
 	h := &vh.Hist[c09Action]{
 		Rep:        rep,
 		Alphabet:   func([]c09Action) []c09Action { return alpha },
@@ -385,6 +410,10 @@ func runC09(t *testing.T, partName, prev string, depthAdj int) {
 	held := ""
 	if prev != "" {
 		held = " (every version announces a predecessor that never arrives)"
+	}
+	if fine {
+		rep.Bound = fmt.Sprintf("all sequences of <=%d parts out of %d: 7 intervals of the 8-byte file on cut points {0,1,2,3,4,8} (one-byte part, one-byte hole, one-byte overlap), 2 parts of a same-size version with another hash, one short-reading reader; after every step: Scan, Received for every interval [b,e) at byte granularity of every version, completion and retention checks", depth, len(alpha))
+		return
 	}
 	rep.Bound = held + fmt.Sprintf("all sequences of <=%d parts of one 8-byte file: the 10 intervals on cut points {0,2,4,6,8} (disjoint, adjacent, identical, nested, overlapping), 3 short-reading readers, one part damaged in transit (the file then fails validation and is transmitted again), 4 parts of a same-size version with another hash, 3 parts of a version with another size; after every step: Scan, Received for every interval of every version, completion and retention checks", depth)
 }
